@@ -79,12 +79,14 @@ def jar_case(rng):
             v = rng.choice(['a', 'Z', '7', 'é', '★', '🐺', '日', ' ', ';', '"', '%', '=']); w, f = enc_value(rng, v)
         elif t == 'str':
             v = ''.join(rng.choice('abcXYZ019-_.') for _ in range(rng.randrange(1, 6))); w, f = v, 'plain'
-        elif t == 'bool': v = rng.choice(['true', 'false']); w, f = v, 'plain'
+        elif t == 'bool':
+            v = rng.choice(['true', 'false']); w, f = enc_value(rng, v) if rng.random() < 0.3 else (v, 'plain')          # a cookie-value may be quoted or escaped whatever its type
         else:
             bits = (t.get('uint') or t.get('sint') or (t['option'].get('uint') or t['option'].get('sint')))
             signed = 'sint' in t or (isinstance(t.get('option'), dict) and 'sint' in t['option'])
             z = rng.choice([0, 1, 2 ** (bits - (1 if signed else 0)) - 1, rng.randrange(2 ** (bits - 1))] + ([-1, -2 ** (bits - 1)] if signed else []))
-            v = str(z); w, f = v, 'plain'
+            v = str(z); w, f = enc_value(rng, v) if rng.random() < 0.3 else (v, 'plain')
+            if f == 'plain' and rng.random() < 0.1: i = rng.randrange(len(w)); w = w[:i] + '%%%02X' % ord(w[i]) + w[i + 1:]; f = 'pct'          # one escaped digit or sign
         parts.append(n + '=' + w); forms.append(f)
         if rng.random() < 0.15: parts.append(rng.choice(['zz=1', 'other=%41', 'q="x"', 'u=a=b']))
     header = '; '.join(parts)
